@@ -251,6 +251,27 @@ fn run(w: &mut World, o: &Op) -> Outcome {
             let n = mkname(x);
             okv(x.attributes_mut(a[0]).insert(n, o.s.clone()))
         }
+        "attr_session" => {
+            // two insertions through ONE mutable view: (ns, ln) := s, then ("", px) := "w"; the second result is reported
+            let n = mkname(x);
+            let n2 = x.add_name(&o.px);
+            let mut m = x.attributes_mut(a[0]);
+            m.insert(n, o.s.clone());
+            okv(m.insert(n2, "w".to_string()))
+        }
+        "ns_session" => {
+            // the same for declarations: px := uri, then prefix ln := "u3"
+            let p = x.add_prefix(&o.px);
+            let ns = x.add_namespace(&o.uri);
+            let p2 = x.add_prefix(&o.ln);
+            let ns2 = x.add_namespace("u3");
+            let r = {
+                let mut m = x.namespaces_mut(a[0]);
+                m.insert(p, ns);
+                m.insert(p2, ns2)
+            };
+            oks(r.map(|n| x.namespace_str(n).to_string()))
+        }
         "attr_remove" => {
             let n = mkname(x);
             okv(x.attributes_mut(a[0]).remove(n))
@@ -632,8 +653,8 @@ pub const NODE1_OPS: [&str; 8] =
     ["detach", "remove", "element_unwrap", "clone_node", "clone_with_prefixes", "new_document_with_element", "riw", "dedup"];
 
 /// Element-only accessors: documented to panic on a non-element.
-pub const ELEMENT_ONLY: [&str; 21] = [
-    "set_element_name", "set_attribute", "remove_attribute", "attr_insert", "attr_remove", "attr_clear", "attr_get_mut",
+pub const ELEMENT_ONLY: [&str; 23] = [
+    "attr_session", "ns_session", "set_element_name", "set_attribute", "remove_attribute", "attr_insert", "attr_remove", "attr_clear", "attr_get_mut",
     "attr_entry_or_insert", "attr_entry_or_insert_with", "attr_entry_or_default", "attr_entry_and_modify_or_insert",
     "attr_entry_occupied_insert", "attr_entry_occupied_remove", "attr_entry_vacant_insert", "set_namespace", "remove_namespace",
     "ns_insert", "ns_remove", "ns_clear", "ns_get_mut", "ns_entry_or_insert",
@@ -716,6 +737,14 @@ pub fn random_op(w: &World, r: &mut Rng, profile: &str) -> Op {
         let val = rand_text(r, false);
         let (ns, ln) = rand_name(r);
         let attrs: Vec<usize> = live.iter().copied().filter(|i| w.xot.is_attribute_node(w.h(*i)) || w.xot.is_namespace_node(w.h(*i))).collect();
+        if r.chance(1, 8) {
+            // a session on ONE mutable view: update (possibly) an existing key, then a key of another alphabet
+            return if r.chance(2, 3) {
+                Op::new("attr_session", &[e]).name(&ns, &ln).s(&val).pxuri(pk(r, &["zz", "zy", "a"]), "")
+            } else {
+                Op::new("ns_session", &[e]).name("", pk(r, &["zz", "zy", "p"])).pxuri(pk(r, &PXS), pk(r, &NSS))
+            };
+        }
         return match r.below(26) {
             0 => Op::new("set_attribute", &[e]).name(&ns, &ln).s(&val),
             1 => Op::new("remove_attribute", &[e]).name(&ns, &ln),
@@ -769,7 +798,7 @@ pub fn random_op(w: &World, r: &mut Rng, profile: &str) -> Op {
     if roll < 86 {
         return match r.below(7) {
             0 => Op::new("text_set", &[a0]).s(&rand_text(r, ws)),
-            1 => Op::new("comment_set", &[a0]).s(if r.chance(1, 4) { "a--b" } else { "k" }),
+            1 => Op::new("comment_set", &[a0]).s(*r.pick(&["a--b", "k", "k", "t-", "-", "--", "a-b", ""])),
             2 => match r.below(3) {
                 0 => Op::new("pi_set_target", &[a0]).name(&ns, &ln),
                 1 => Op::new("element_mut_set_name", &[a0]).name(&ns, &ln),
@@ -871,8 +900,11 @@ pub fn all_ops(w: &World, full: bool) -> Vec<Op> {
         if full {
             v.push(Op::new("append_pi", &[x]).name("", "a").s("d").b(true));
             v.push(Op::new("append_namespace", &[x]).pxuri("p", "u2"));
+            v.push(Op::new("attr_session", &[x]).name("", "a").pxuri("zz", "").s("y"));
+            v.push(Op::new("ns_session", &[x]).name("", "zz").pxuri("p", "u2"));
             v.push(Op::new("comment_set", &[x]).s("a--b"));
             v.push(Op::new("comment_set", &[x]).s("k"));
+            v.push(Op::new("comment_set", &[x]).s("t-"));
             v.push(Op::new("pi_set_data", &[x]).s("z").b(true));
             v.push(Op::new("pi_set_target", &[x]).name("", "c"));
             v.push(Op::new("element_mut_set_name", &[x]).name("u1", "c"));
